@@ -9,7 +9,11 @@ LABELS = [b'a', b'b', b'c', b'A', b'B', b'example', b'Example', b'EXAMPLE', b'or
           b'srv[1}', b'srv{1}', b'{id}', b'[id]', b'_dmarc', b'\x7fdmarc', b'a@b', b'a`b', b'Zone', b'zone', b'ZZ', b'zz',
           b'\xc3\x89', b'\xc3\xa9', b'b.example', b'a.b.example',
           # presentation-format escapes are NOT interpreted on the wire
-          b'a\\b', b'\\046', b'a\\.b', b'\\', b'\\\\', b'x\\y', b'"q"', b'a b', b'a;b', b'(a)', b'@']
+          b'a\\b', b'\\046', b'a\\.b', b'\\', b'\\\\', b'x\\y', b'"q"', b'a b', b'a;b', b'(a)', b'@',
+          # white space at the ends of a label is part of the label (text-input conveniences must not reach the wire codec)
+          b' lead', b'trail ', b' ', b'\t', b' both ', b'Lobby printer ',
+          # special-use names (RFC 6761/6762/7686 ...): a codec has no business treating them specially
+          b'local', b'LOCAL', b'localhost', b'arpa', b'in-addr', b'ip6', b'invalid', b'onion', b'test', b'home', b'_tcp', b'_udp', b'_dns-sd']
 
 def rand_label(rng):
     r = rng.random()
